@@ -9,7 +9,8 @@
     L_injective_w      ANY delays and impulses, the delay factors e^{−s d} being independent indeterminates (`LW`)
     L_injective_delay  any delays, for an `E` whose delay factors are independent (`DelayIndep E`)
     L_injective_real   any delays and impulses, E = Real.exp : NO hypothesis (`delayIndep_real`, Proofs/TimeDomainInjReal.lean)
-    lawsT_iff_formal / lawsTW_iff_formal / lawsTFormal_of_laws_s / response_unique / continuity
+    LawsTime (= FinitePoles ∧ LawsT: the claimed notion) / lawsTime_iff_formal / formal_lawsTime / laws_time_of_laws_s /
+    lawsT_iff_formal / lawsTW_iff_formal / lawsTFormal_of_laws_s / response_unique / continuity(_value)
 
   "vanishes / agrees at every regular point" is weakened throughout to "outside some finite set" (stronger theorems).
   Helper lemmas: Proofs/TimeDomainInj.lean.
@@ -105,6 +106,47 @@ theorem lawsT_iff_formal (hE : IsExp E) (tcs : List (TCpt K)) (x : Ix → Signal
   · exact residual_inj E hE tcs x hD _ (Or.inl ⟨k, rfl⟩) bad (fun s hs => (h s (hbad s hs)).1 k hk)
   · exact residual_inj E hE tcs x hD _ (Or.inr ⟨c, hc, p, hp, rfl⟩) bad (fun s hs => (h s (hbad s hs)).2 c hc p hp)
 
+/-! ### the time-domain laws as CLAIMED: with finitely many poles (audit F3)
+
+    `LawsT E` alone says nothing when the set of regular points is empty (signals on unused indices whose poles cover the
+    field satisfy it for every circuit: reviewer's `lawsT_junk`).  The notion used in the claims is `LawsTime`. -/
+
+/-- **the time-domain laws at the level of transforms**: finitely many poles altogether, and every residual has the zero
+    transform at every regular point.  For delayed sources read it with an `E` whose delay factors are independent
+    (`Real.exp`: `…_real` theorems) or use `LawsTW`; over ℚ every `IsExp E` is the constant 1 and forgets delays (F4). -/
+def LawsTime (tcs : List (TCpt K)) (x : Ix → Signal K) : Prop := FinitePoles tcs x ∧ LawsT E tcs x
+
+/-- **formal_lawsTime**: what the driver decides, on signals with finitely many poles, gives the time-domain laws. -/
+theorem formal_lawsTime (tcs : List (TCpt K)) (x : Ix → Signal K) (hfin : FinitePoles tcs x) (h : LawsTFormal tcs x) :
+    LawsTime E tcs x := ⟨hfin, formal_lawsT E tcs x h⟩
+
+/-- **laws_time_of_laws_s** (`laws_t_of_laws_s` with `FinitePoles`). -/
+theorem laws_time_of_laws_s (hE : IsExp E) (tcs : List (TCpt K)) (x : Ix → Signal K) (hfin : FinitePoles tcs x)
+    (hrest : RestWhereUnspecified tcs x)
+    (h : ∀ s, Regular tcs x s → Laws .ivp s (tcs.map (atS E s)) (transformOf E x s)) : LawsTime E tcs x :=
+  ⟨hfin, laws_t_of_laws_s E hE tcs x hrest h⟩
+
+/-- **response_is_ilt_time** (`response_is_ilt` with `FinitePoles`; `TD.response` is the model's `ilt`, executed by Driver/C10). -/
+theorem response_is_ilt_time (hE : IsExp E) (tcs : List (TCpt K)) (pre : Ix → List (K × Nat × K)) (pfs : Ix → List (PF K))
+    (hfin : FinitePoles tcs (fun ix => ⟨pre ix, response (pfs ix)⟩))
+    (hpos : ∀ ix, ∀ pf ∈ pfs ix, ∀ r ∈ pf.R, 0 < r.2.2)
+    (hrest : RestWhereUnspecified tcs (fun ix => ⟨pre ix, response (pfs ix)⟩))
+    (hS : ∀ s, Regular tcs (fun ix => ⟨pre ix, response (pfs ix)⟩) s →
+      Laws .ivp s (tcs.map (atS E s)) (fun ix => lsum ((pfs ix).map (fun pf => evalPF E pf s)))) :
+    LawsTime E tcs (fun ix => ⟨pre ix, response (pfs ix)⟩) :=
+  ⟨hfin, response_is_ilt E hE tcs pre pfs hpos hrest hS⟩
+
+/-- **lawsTime_iff_formal**: the claimed equivalence — the time-domain laws (transform level, finitely many poles) are
+    exactly the formal laws decided by the driver, when nothing is delayed or the delay factors of `E` are independent. -/
+theorem lawsTime_iff_formal (hE : IsExp E) (tcs : List (TCpt K)) (x : Ix → Signal K) (hD : DelaysOK E tcs x) :
+    LawsTime E tcs x ↔ FinitePoles tcs x ∧ LawsTFormal tcs x :=
+  ⟨fun h => ⟨h.1, (lawsT_iff_formal E hE tcs x hD h.1).mp h.2⟩, fun h => ⟨h.1, formal_lawsT E tcs x h.2⟩⟩
+
+/-- the reviewer's point, as a theorem of this file: without `FinitePoles` the transform-level laws do not imply the
+    formal ones — `LawsT` holds for EVERY circuit on signals with no regular point -/
+theorem lawsT_of_no_regular_point (tcs : List (TCpt K)) (x : Ix → Signal K) (h : ∀ s, ¬ Regular tcs x s) : LawsT E tcs x :=
+  fun s hs => absurd hs (h s)
+
 /-- **lawsTW_iff_formal**: with the delay factors as independent indeterminates the equivalence holds for ALL signals
     (delayed sources, impulses): what the driver decides is exactly "every residual has the zero transform". -/
 theorem lawsTW_iff_formal (tcs : List (TCpt K)) (x : Ix → Signal K) (hfin : FinitePoles tcs x) :
@@ -191,6 +233,19 @@ theorem continuity (hE : IsExp E) (x : Ix → Signal K) (n1 n2 : Nat) (c : K) (i
     (L_injective E hE 0 _ (hdi.subP (((AllDelay.vpost hdx n1 n2).stateDeriv _).smul c)) bad hlaw) hv hi
 
 end injectivity
+
+/-- **continuity_value**: `continuity` as a statement about the VALUE at 0⁺ (`evalAt … 0`), for a causal voltage
+    (`val0plus` is the value at 0⁺ only when no term has a negative delay: audit F5). -/
+theorem continuity_value {K : Type} [Field K] [LinearOrder K] [IsStrictOrderedRing K] [Infinite K] (E : K → K) (hE : IsExp E)
+    (x : Ix → Signal K) (n1 n2 : Nat) (c : K) (i : ExpPoly K) (hc : c ≠ 0)
+    (hdx : ∀ ix, AllDelay 0 (x ix).post) (hdi : AllDelay 0 i) (bad : Finset K)
+    (hlaw : ∀ s, s ∉ bad → NonPole (subP i (capCurrentT x n1 n2 c none)) s →
+      L E (subP i (capCurrentT x n1 n2 c none)) s = 0)
+    (hv : NoDelta (vpost x n1 n2)) (hi : impulse0 i = 0) :
+    evalAt E (vpost x n1 n2) 0 = vpre0 x n1 n2 := by
+  have hcz : Causal (vpost x n1 n2) := fun t ht => by rw [AllDelay.vpost hdx n1 n2 t ht]
+  rw [evalAt_zero_of_causal E hE.zero _ hcz]
+  exact continuity E hE x n1 n2 c i hc hdx hdi bad hlaw hv hi
 
 /-! ### the real exponential: injectivity with delays and impulses, no hypothesis left -/
 
@@ -356,6 +411,11 @@ example : val0plus (vpost cX 2 0) = vpre0 cX 2 0 := by
   · intro t ht
     simp [vpost, subP, voltT, cX, smul, Signal.zero] at ht
     subst ht; trivial
+
+/-- the claimed notion holds on the example, and is equivalent to the formal laws there -/
+example : LawsTime (fun _ : ℚ => (1 : ℚ)) exTcs exX := formal_lawsTime _ exTcs exX ex_finitePoles ex_lawsTFormal
+example : LawsTime (fun _ : ℚ => (1 : ℚ)) exTcs exX ↔ FinitePoles exTcs exX ∧ LawsTFormal exTcs exX :=
+  lawsTime_iff_formal _ ⟨fun _ _ => by simp, rfl⟩ exTcs exX (Or.inl ex_delayFree)
 
 end examples
 
